@@ -8,6 +8,7 @@ CONSTANTS
     Async = FALSE
     AnyOrder = FALSE
     UnmountFaults = TRUE
+    InitCommitted = FALSE
     SurviveModes = {TRUE, FALSE}
     LabelOnlyIfMounted = TRUE
     CheckWholeChain = TRUE
